@@ -49,7 +49,7 @@ KINDS = {
     "expect_other": ("1.1", b"200-ok", "cl"),
     "expect_list": ("1.1", b"100-continue, x", "cl"),
     "expect10": ("1.0", b"100-continue", "cl"),
-    # complete (or refused) at the end of the header block: the class of F5/F6
+    # complete (or refused) at the end of the header block: the class of the former F5/F6
     "expect_nobody": ("1.1", b"100-continue", "none"),
     "expect_cl0": ("1.1", b"100-continue", "cl0"),
     "expect_toolarge": ("1.1", b"100-continue", "toolarge"),
@@ -333,11 +333,25 @@ def run_sequential(reqs, script, lookahead=0):
             elif st[0] == "serve":
                 serve()
             elif st[0] == "check_interim":
-                checks.append((st[1], sock.sent.count(INTERIM), len(sock.sent)))
+                checks.append((st[1], 1 if interim_for(sock.sent, st[1]) else 0, len(sock.sent)))
     except Exception as e:  # an exception escaping received()/service() closes the channel in the real loop
         escaped = repr(e)
     return {"sent": sock.sent, "calls": calls, "kf_hits": kf_hits, "checks": checks, "closed": sock.closed,
             "escaped": escaped, "pending_request": ch.request is not None, "queued": len(ch.requests)}
+
+
+def interim_for(wire, idx):
+    """Has the client received the interim response of request no. idx, i.e. an
+    interim response after exactly idx final responses?"""
+    resps, _ = parse_wire(wire)
+    nf = 0
+    for r in resps:
+        if r[0] == "interim":
+            if nf == idx:
+                return True
+        else:
+            nf += 1
+    return False
 
 
 def parse_wire(wire):
@@ -453,14 +467,12 @@ def monitor(reqs, wire, calls, checks=(), complete=True, waited=(), big_first=Fa
     return problems
 
 
-def kf_class_of(reqs, result_kf_hits):
-    """The narrow class of findings F5/F6: send_continue ran on a request that was
-    already completed (complete or refused at the end of its header block while
-    at the head of the line); cross-checked with the input: such a request is in
-    the pipeline."""
-    if result_kf_hits and any(r.asks and r.complete_at_head for r in reqs):
-        return "kf_c19_expect_complete_at_head"
-    return None
+def complete_at_head_hit(reqs, hits):
+    """send_continue ran on a request that was already completed (complete or
+    refused at the end of its header block while at the head of the line): the
+    class of the former findings F5/F6 (repaired by fix e3537e2); counted for
+    the evidence, cross-checked with the input."""
+    return bool(hits) and any(r.asks and r.complete_at_head for r in reqs)
 
 
 # ---------------------------------------------------------------------------
@@ -559,8 +571,9 @@ def make_world(reqs, client_script, schedule=(), policy=None, lookahead=0, n_wor
     """A chan_world.World whose channel reports what K-chanexpect needs:
     parser calls (flags before / after), send_continue (who, on what),
     write_soon (for which request), received() entry / exit.  Client script
-    steps: ("send", bytes) | ("wait_interim", k) (park until k interim responses
-    are on the wire) | ("wait_wire", n) | ("close",)."""
+    steps: ("send", bytes) | ("wait_interim", idx) (park until the interim
+    response of request idx is on the wire: an interim response after idx final
+    responses) | ("wait_wire", n) | ("close",)."""
     from harness import chan_world as cw
     from harness.sched import Op
 
@@ -656,7 +669,7 @@ def make_world(reqs, client_script, schedule=(), policy=None, lookahead=0, n_wor
                 if step[0] == "wait_interim":
                     k = step[1]
                     self.sched.yield_(Op("client:wait_interim", k,
-                                         enabled=lambda k=k: self.wire.count(INTERIM) >= k or self.sock.closed))
+                                         enabled=lambda k=k: interim_for(self.wire, k) or self.sock.closed))
                 else:
                     saved = self.client_script
                     self.client_script = [step]
@@ -691,7 +704,7 @@ def world_script(reqs, mode="same_read"):
             pend = b""
             n_interims += 1
             waited.append(r.idx)
-            script.append(("wait_interim", n_interims))
+            script.append(("wait_interim", r.idx))
             if mode == "same_read":
                 pend = payload
             else:
@@ -854,7 +867,6 @@ def parse_model_state(s):
         "closing": 1 if (kv["wc"] == "1" or kv["cwf"] == "1") else 0,
         "con": int(kv["con"]),
         "out": lst(kv["out"]),
-        "bad": lst(kv["bad"]),
         "lab": lst(kv["lab"]),
     }
 
@@ -878,10 +890,6 @@ def compare_run(world, runner):
                 if m[f] != (obs[f] if f not in ("reqs",) else [tuple(x) for x in obs[f]]) and not (
                         f == "req" and obs[f] is not None and m[f] is not None and tuple(obs[f]) == m[f]):
                     return k, "after step %d (%s): %s differs: model %r, real %r" % (k, c, f, m[f], obs[f]), choices
-    # the class of F5/F6 is the model's `bad`
-    last = parse_model_state(ans[len(choices) - 1])
-    if bool(last["bad"]) != bool(world.kf_hits):
-        return len(choices), "model bad=%r but real send_continue-on-completed hits=%r" % (last["bad"], world.kf_hits), choices
     return len(choices), None, choices
 
 
